@@ -15,6 +15,7 @@ from gv.astutil import norm_stmt
 from gv.astutil import stmts_of
 from gv.astutil import walk_body
 from gv.cfg import cfg_of
+from gv.dataflow import SymValues
 from gv.props import describe
 from gv.props.shared import branch_conditions
 from gv.purity import impure_writes
@@ -1037,12 +1038,44 @@ def check_same_point(ctx: Ctx) -> None:
     ctx.floor("10.3-same-point", 7)
 
 
+def check_point_not_retained(ctx: Ctx) -> None:
+    """10.6 an evaluation keeps no reference to the caller's input array: a value remembered "for the point x" through an
+    alias of x is silently attached to whatever x becomes when the caller updates it in place (the drivers do)."""
+    POINTS = {"input_value", "x_vect", "x_new", "x_in", "input_data", "x"}
+    n = 0
+    for rel, mod in sorted(ctx.index.modules.items()):
+        if not (rel.startswith("core/mdo_functions/") or rel == "algos/problem_function.py"):
+            continue
+        for cn, c in sorted(mod.classes.items()):
+            for mname, m in sorted(c.methods.items()):
+                if mname == "__init__" or any(isinstance(d, ast.Attribute) and d.attr == "setter" for d in m.decorator_list):
+                    continue
+                params = [a.arg for a in m.args.args if a.arg != "self"]
+                pts = [p_ for p_ in params[:1] if p_ in POINTS]
+                if not pts:
+                    continue
+                n += 1
+                sv = None
+                bad = []
+                for st in stmts_of(m):
+                    if not (isinstance(st, ast.Assign) and any(isinstance(t, ast.Attribute) and dotted(t.value) == "self" for t in st.targets)):
+                        continue
+                    sv = sv or SymValues(m)
+                    vals = st.value.elts if isinstance(st.value, ast.Tuple) else [st.value]
+                    for v in vals:
+                        if any(t == pts[0] for t in sv.texts(v)):
+                            bad.append(st)
+                ctx.ob("10.6-point-not-retained", cname(rel, cn, mname), not bad, f"the evaluation stores its input array `{pts[0]}` itself (no copy) in the function object: what is remembered for that point changes when the caller modifies the array in place, so a later value or Jacobian 'at the same point' is computed from the data of another point", node=(bad or [m])[0], stmt=f"no alias of {pts[0]} kept in self")
+    ctx.floor("10.6-point-not-retained", 20)
+
+
 def run(ctx: Ctx) -> None:
     check_purity(ctx)
     check_same_point(ctx)
     check_shapes(ctx)
     check_operator_agreement(ctx)
     check_aggregation(ctx)
+    check_point_not_retained(ctx)
     # the normalised twin of a linear function is a composition (f o unnormalise): its coefficients and offset are
     # those of C01 rule 1.8
     from gv.props import c01
